@@ -28,6 +28,8 @@ type c14env struct {
 	nextKey int
 	// vectors whose committed roster lists the first member twice
 	dupFirst map[int]bool
+	// keys announced for the next commit of the container under verification (or dismissed by the last one), per vector
+	outsiders map[int][]*keys.PrivateKey
 }
 
 func (c *c14env) ros(cid []byte) *roster {
@@ -441,6 +443,26 @@ func (c *c14env) buildMatrix(cid, msg []byte, members map[int][]*keys.PrivateKey
 				v = append(v, oth[j%len(oth)].Sign(msg))
 			}
 			sm.honest = false
+		case "outsiders-of-this-vector":
+			// keys that were announced for this very vector but not committed yet, or that the last commit replaced
+			out := c.outsiders[i]
+			if len(out) == 0 {
+				out = nonMember
+			}
+			for j := 0; j < need; j++ {
+				v = append(v, out[j%len(out)].Sign(msg))
+			}
+			sm.honest = false
+		case "members+one-outsider-of-this-vector":
+			out := c.outsiders[i]
+			if len(out) == 0 {
+				out = nonMember
+			}
+			for _, k := range perm[:max(min(need, len(ms))-1, 0)] {
+				v = append(v, ms[k].Sign(msg))
+			}
+			v = append(v, out[r.IntN(len(out))].Sign(msg))
+			sm.honest = false
 		case "other-message":
 			for _, k := range perm[:min(need, len(ms))] {
 				v = append(v, ms[k].Sign(other))
@@ -660,6 +682,46 @@ func runC14(b *runner.Batch) {
 					b.Hit("defect-in-one-vector-only")
 				}
 			}
+		}
+		// the window between the Alphabet's announcement of the next roster and its commit: the committed members still
+		// count, the announced keys do not yet (seeded change C14-11: the verifier also reads the pending roster); after the
+		// commit it is the other way round
+		if round%2 == 0 {
+			next := map[int][]*keys.PrivateKey{}
+			for v := 0; v < nvec; v++ {
+				next[v] = c.freshKeys(int(reps[v]) + b.Rng.IntN(3))
+				c.addNodes(cid, v, pubsOf(next[v]), 0)
+			}
+			c.checkRoster(cid)
+			window := func(ms, out map[int][]*keys.PrivateKey, hit string) {
+				c.outsiders = out
+				for _, class := range []string{"honest", "outsiders-of-this-vector", "members+one-outsider-of-this-vector"} {
+					c.judgeVerify(cid, msg, c.buildMatrix(cid, msg, ms, class, -1), class)
+					for t := 0; nvec >= 2 && class != "honest" && t < nvec; t++ {
+						c.judgeVerify(cid, msg, c.buildMatrix(cid, msg, ms, class, t), class)
+					}
+				}
+				b.Hit(hit)
+			}
+			window(members, next, "verified-between-announcement-and-commit")
+			if b.Rng.IntN(2) == 0 {
+				c.commit(cid, reps, 0)
+				c.checkRoster(cid)
+				c.dupFirst = map[int]bool{}
+				window(next, members, "verified-right-after-the-roster-was-replaced")
+				members = next
+			} else {
+				// the announcement is withdrawn by an empty commit followed by the old roster again
+				c.commit(cid, nil, 0)
+				for v := 0; v < nvec; v++ {
+					c.addNodes(cid, v, pubsOf(members[v]), 0)
+				}
+				c.commit(cid, reps, 0)
+				c.checkRoster(cid)
+				c.dupFirst = map[int]bool{}
+				window(members, next, "verified-after-the-announcement-was-dropped")
+			}
+			c.outsiders = nil
 		}
 		// submitObjectPut: the message is the meta information itself
 		height := int64(c.w.Height())
